@@ -390,7 +390,11 @@ func RunCheck(chk *Check, tier string, seed int64) int {
 		if len(short) > 600 {
 			short = short[:600] + "..."
 		}
-		fmt.Printf("VIOLATION property=%s replay=%s\n  class=%s case=%s\n  %s\n", chk.ID, p, class, c.Key(), strings.ReplaceAll(short, "\n", "\n  "))
+		if violations <= 8 {
+			fmt.Printf("VIOLATION property=%s replay=%s\n  class=%s case=%s\n  %s\n", chk.ID, p, class, c.Key(), strings.ReplaceAll(short, "\n", "\n  "))
+		} else {
+			fmt.Printf("VIOLATION property=%s replay=%s\n", chk.ID, p)
+		}
 	}
 
 	for finished < nslots {
